@@ -861,3 +861,76 @@ func (ef *Effects) obFreshResult(key string) EffOb {
 	sort.Strings(d)
 	return EffOb{name, len(d) == 0, strings.Join(d, "; ")}
 }
+
+// obReadsOnly: parameter `pname` of key is used only through p[lo:hi] windows (a `reads p[lo:hi]` clause):
+// every use is a slice expression with constant bounds inside the window, or the parameter is passed on to a
+// repository function whose own contract has a `reads` clause inside the window for that position.
+func (ef *Effects) obReadsOnly(key, pname string, lo, hi int64) EffOb {
+	name := fmt.Sprintf("reads-only %s %s[%d:%d]", key, pname, lo, hi)
+	fn, ok := ef.fns[key]
+	if !ok {
+		return EffOb{name, false, "function not found in SSA"}
+	}
+	var par *ssa.Parameter
+	for _, p := range fn.Params {
+		if p.Name() == pname {
+			par = p
+		}
+	}
+	if par == nil {
+		return EffOb{name, false, "parameter not found"}
+	}
+	constInt := func(v ssa.Value) (int64, bool) {
+		if v == nil {
+			return 0, false
+		}
+		if c, ok := v.(*ssa.Const); ok && c.Value != nil {
+			return c.Int64(), true
+		}
+		return 0, false
+	}
+	var bad []string
+	for _, ref := range *par.Referrers() {
+		switch x := ref.(type) {
+		case *ssa.Slice:
+			l := int64(0)
+			if x.Low != nil {
+				v, ok := constInt(x.Low)
+				if !ok {
+					bad = append(bad, "slice with non-constant low bound at "+ef.pos(x.Pos()))
+					continue
+				}
+				l = v
+			}
+			h, ok := constInt(x.High)
+			if !ok || l < lo || h > hi {
+				bad = append(bad, "slice outside the declared window at "+ef.pos(x.Pos()))
+			}
+		case ssa.CallInstruction:
+			com := x.Common()
+			callee := com.StaticCallee()
+			okCall := false
+			if callee != nil {
+				if ck := ef.sumKey(callee); ck != "" {
+					if con := ef.eng.cs.Funcs[ck]; con != nil && con.Reads != nil {
+						for i, a := range com.Args {
+							if a == par && i < len(callee.Params) {
+								if rd, has := con.Reads[callee.Params[i].Name()]; has && rd[0] >= lo && rd[1] <= hi {
+									okCall = true
+								}
+							}
+						}
+					}
+				}
+			}
+			if !okCall {
+				bad = append(bad, "passed to a call without a matching reads clause at "+ef.pos(x.Pos()))
+			}
+		case *ssa.DebugRef:
+		default:
+			bad = append(bad, fmt.Sprintf("used by %T at %s", ref, ef.pos(ref.Pos())))
+		}
+	}
+	sort.Strings(bad)
+	return EffOb{name, len(bad) == 0, strings.Join(bad, "; ")}
+}
